@@ -950,6 +950,7 @@ class Executor:
 
     def list_extend(self, lst: ListV, rhs, node):
         self.emit("list_extend", node, lst=lst, value=rhs)
+        lst.extended = getattr(lst, "extended", []) + [rhs]
         if isinstance(rhs, (ListV, TupleV)) and not getattr(rhs, "opaque", False) and not lst.opaque:
             lst.items.extend(rhs.items)
         else:
